@@ -12,6 +12,7 @@ CONTENT_WORDS = ["0000-0002-9079-593X", "https://orcid.org/0000-0002-9079-593X",
                  "10.6073/pasta/0123456789abcdef", "doi:10.6073/pasta/0123456789abcdef", "https://doi.org/10.6073/pasta/0123", "www.lternet.edu/x",
                  "urn:uuid:123e4567-e89b-12d3-a456-426614174000", "hdl:1902.1/21919", "edi.1.1", "knb-lter-nin.1.1", "https://ror.org/021nxhr62",
                  "0000 0001 2103 2683", "Tortuga&nbsp;Island", "25 &deg;C", "a &ndash; b", "5 &micro;m", "&copy; 2020", "Garc&#237;a", "Caf&#xE9;",
-                 "#x0A", "\\n", "\\r\\n", "1.0", "00", "007", "+5", "1e3", " 2", "1_0", "true", "NaN", "-9999", "NA", "n/a", "unknown", "CC0", "CC-BY 4.0"]
+                 "#x0A", "\\n", "\\r\\n", "Missing value code: NaN", "upper bound: Infinity", "x: -Infinity", "a: null", "flag: true", 'he said "x": "y"', "}, {", "[1, 2]",
+                 "\\u0041", "line one\r\nline two", "p > 0.05 -> x[i[1]]>0", "a && b < c", "1.0", "00", "007", "+5", "1e3", " 2", "1_0", "true", "NaN", "-9999", "NA", "n/a", "unknown", "CC0", "CC-BY 4.0"]
 
 TITLE_LANGS = ["zh", "zh-Hans", "ja", "ja-JP", "th", "en", "fr-CA", "", "x-klingon"]
